@@ -3,8 +3,8 @@ import random
 from vlib import core, corr
 
 AREA = "C07"
-MODULES = ["TinsModel.Props.C07"]
-AUDIT = "Audit/C07.lean"
+MODULES = ["TinsModel.Props.C07", "TinsModel.Props.Limits.C07"]   # + the constants / limits tied to the source (translator/gen_limits.py)
+AUDIT = ["Audit/C07.lean", "Audit/LimitsC07.lean"]
 LEVEL = "proof"
 HARNESS = "c07_follower"
 HARNESS_EXTRA = ["-fno-access-control"]       # the buffering limits have no public setter
@@ -396,6 +396,8 @@ def harness():
 
 
 def run(chk):
+    from translator import gen_limits
+    gen_limits.main([])          # Gen/Limits.lean: constants and limits read from the current source
     problems = chk.prove(MODULES, AUDIT, want_leanchecker=(chk.tier == "thorough"))
     exe, err = harness()
     if exe is None:
